@@ -61,9 +61,11 @@ Proof. exact safe_unless_foreign. Qed.
 Print Assumptions C20_exclusive_bounded_unless_foreign_release.
 
 (* (5) connections on top of the service (process_acquired_room always unlocks, cleanup unlocks
-   what is in acquired_lock): a connection-level history in which no connection ends while one of
-   its room tasks runs (class 1) or while a grant waits in its channel (class 2) causes a service
-   history without any release by a non-holder, on which the whole service oracle holds *)
+   what is in acquired_lock, the end of a connection closes and drains its lock channel): a
+   connection-level history in which no connection ends while one of its room tasks runs (class 1)
+   causes a service history without any release by a non-holder, on which the whole service oracle
+   holds.  Grants still waiting in the channel of a connection that ends need no hypothesis any
+   more (former class 2, repaired by 2487a5d): they are released by the end of the connection. *)
 Theorem C20_conn_outside_known_partial : forall max es,
   known_C20 (CConn max es) = [] ->
   foreign_lock max (conn_trace max es) = false /\
@@ -71,27 +73,43 @@ Theorem C20_conn_outside_known_partial : forall max es,
 Proof. exact conn_benign_service_ok. Qed.
 Print Assumptions C20_conn_outside_known_partial.
 
+(* (5a) closing and draining the lock channel only releases rooms that connection holds: whatever
+   the state, the drain contains no release by a non-holder and keeps "holders = grants waiting in
+   channels + rooms of running tasks" *)
+Theorem C20_end_drain_holds : forall n c s cs h s' cs' ms gss,
+  CInv cs h -> drain n c s cs = (s', cs', ms, gss) ->
+  foreign_from s h ms = false /\ s' = fst (ghost_after s h ms) /\ CInv cs' (snd (ghost_after s h ms)).
+Proof. exact drain_benign. Qed.
+Print Assumptions C20_end_drain_holds.
+
+(* (5b) the former class-2 witness (a grant waits in the channel of a connection that ends) now
+   satisfies the oracle and lies in no class: the room and the slot are free again *)
+Theorem C20_end_releases_waiting_grants_holds :
+  known_C20 k2_conn_witness = [] /\ spec_C20 k2_conn_witness (run_C20 k2_conn_witness) = true /\
+  conn_trace 1 [CRequest 1 [5]; CEnd 1; CRequest 9 [5]; CTake 9; CFinish 9 5; CRequest 8 [6]] =
+    [Request 1 [5] 0; DropChan 1 0; Unlock 1 5; Request 9 [5] 0; Unlock 9 5; Request 8 [6] 0].
+Proof. exact end_releases_waiting_grants. Qed.
+Print Assumptions C20_end_releases_waiting_grants_holds.
+
 (* (5') the source still has the shape the connection part of the model (and the part of the
    connection loop that the harness plays itself) assumes: Unlock carries no owner; every exit path of
    a room task unlocks; the loop hands the oldest grant to process_acquired_room; the end of the
-   connection unlocks acquired_lock and does NOT drain the lock channel; the service channel holds
-   fewer messages than the harness sends no-ops to wait for quiescence *)
+   connection unlocks acquired_lock, then closes and drains the lock channel; the service channel
+   holds fewer messages than the harness sends no-ops to wait for quiescence *)
 Theorem C20_conn_code_as_modelled :
   unlock_carries_owner = false /\ Nat.ltb lock_channel_size 8 = true /\ task_always_unlocks = true /\
-  loop_spawns_oldest_grant = true /\ end_unlocks_acquired = true /\ end_drains_lock_channel = false.
+  loop_spawns_oldest_grant = true /\ end_unlocks_acquired = true /\ end_drains_lock_channel = true.
 Proof. exact conn_facts_as_modelled. Qed.
 Print Assumptions C20_conn_code_as_modelled.
 
-(* (6) the property at full strength is refuted by the faithful model (and by the real code: the
-   witnesses are the first directed cases of the harness): Unlock carries no owner; reachable
-   through the connection code alone (end of connection while a room task runs); and a grant
-   waiting in the channel of a connection that ends is never released *)
+(* (6) the property at full strength is still refuted by the faithful model (and by the real code:
+   the witnesses are directed cases of the harness): Unlock carries no owner; reachable through the
+   connection code alone (end of connection while a room task runs) *)
 Theorem C20_refuted : spec_C20 k1_witness (run_C20 k1_witness) = false /\ known_C20 k1_witness = [1%Z].
 Proof. exact refuted. Qed.
 Print Assumptions C20_refuted.
 Theorem C20_refuted_conn :
-  spec_C20 k1_conn_witness (run_C20 k1_conn_witness) = false /\ known_C20 k1_conn_witness = [1%Z] /\
-  spec_C20 k2_conn_witness (run_C20 k2_conn_witness) = false /\ known_C20 k2_conn_witness = [2%Z].
+  spec_C20 k1_conn_witness (run_C20 k1_conn_witness) = false /\ known_C20 k1_conn_witness = [1%Z].
 Proof. exact refuted_conn. Qed.
 Print Assumptions C20_refuted_conn.
 
